@@ -2,8 +2,10 @@
 
 R-EFFSEQ (generic bodies interpreted with opaque serializer types): Serialize emits serialize_tuple_struct(type name, N), then N serialize_field calls whose
 arguments are elements 0..N-1 of the value in lane / column-major order, then end; Deserialize::visit_seq makes exactly N next_element calls, element k flows to
-element k of the constructed value, a missing element k is reported as invalid_length(k); both sequences are identical in SIMD and scalar-math builds.
-R-LAYOUT: Pod only for padding-free types whose byte image is the element order; R-COPY: rkyv resolve/deserialize copy *self; mint conversions copy lanes
+element k of the constructed value unchanged (it is the element read, of the documented element type - bool for masks -, not a function of it), a missing
+element k is reported as invalid_length(k) (closure or match form); both sequences are identical in all four interop builds.
+R-LAYOUT: Pod only for padding-free types whose byte image is the element order; every other bytemuck marker trait is reviewed (AnyBitPattern never on masks, NoUninit
+never with padding); R-COPY: rkyv resolve/deserialize copy *self and exist only for types made of plain numbers; mint conversions copy lanes and cannot panic
 (column matrices by column, row matrices transposed).  Not decided: rejection of over-long sequences (done by the format crate)."""
 import re
 import terms as tm
